@@ -875,7 +875,7 @@ def check_c05(ctx, rep, tier):
     run_generic(ctx, rep, "DECR", arith.decr_sites, configs=("dbg",), trusted_rule="DECR-TABLE",
                 select=lambda b, k: b.name in ("shl_in", "shr_in") or b.trait in SHIFT_TRAITS)
     n = run_generic(ctx, rep, "OVF-SHIFT", arith.shift_amount_arith, configs=("dbg",), trusted_rule="OVF-SHIFT-TABLE")
-    rep.floor("overflow-checked arithmetic on the shift amount in the kernels", n, 54)
+    rep.floor("overflow-checked arithmetic on the shift amount in the kernels", n, 54, need=18)
     n = run_generic(ctx, rep, "RET", shl_in_return)
     rep.floor("shl_in/shr_in implementations", n, 4)
     run_dbgfx(ctx, rep, lambda b, k: b.trait in SHIFT_TRAITS or b.name in ("shl_in", "shr_in"))
@@ -955,6 +955,10 @@ def check_c10(ctx, rep, tier):
     # Hash is consistent with Eq only if Eq itself is not too lenient: a zip/by_ref equality that skips a word makes
     # unequal values (with different hashes) compare equal
     run_generic(ctx, rep, "ZIPREF", f2.zip_by_ref, select=lambda b, k: b is not None and b.name in ("eq", "ne", "hash"))
+    # hash feeds significant_bits() = len - leading_zeros() words: the scans it relies on must address the used words
+    run_generic(ctx, rep, "ENDANCHOR", f2.end_anchored_reads)
+    n = run_generic(ctx, rep, "SIB", f2.word_primitives, select=lambda b, k: "leading_zeros" in k)
+    rep.floor("per-word leading_zeros primitives (SLOT)", n, 6)
     # Hash for Bvf/Bvd feeds raw storage words: it is in the reliance set of the padding invariant, so the writer
     # discipline (every writer re-establishes zero padding) is a premise of this property
     counts = run_mask(ctx, rep, select=lambda w: w.klass != "CTOR")   # the trusted constructors are C03's known finding F11
@@ -1232,6 +1236,10 @@ def check_c20(ctx, rep, tier):
     # and forwarded; an integer form that grows a kernel of its own must thread its carry like the vector kernels do
     run_generic(ctx, rep, "CARRY", f2.carry_kernels,
                 select=lambda b, k: b is not None and bool(b.trait_args) and b.trait_args[0].lstrip("&") in f2.WORD_TYPES)
+    # sibling kernels of one operator (Bvd x Bvd, Bvd x Bvf, ...) serve different forms of the same operation: each must
+    # cover every word position (COVER) and address words by position, not by rank after a filter (POS)
+    run_generic(ctx, rep, "COVER", f2.kernel_coverage, select=lambda b, k: b.trait in ARITH_KERNEL_TRAITS)
+    run_generic(ctx, rep, "POS", f2.positional_indices)
     if tier == "thorough":
         _matrix(ctx, rep, ("ops",))
     rep.not_decided += ["agreement of the hand-written twins beyond slot equality", "the kernels' values"]
@@ -1371,7 +1379,8 @@ _ADDENDA = {
     "C09": "ZIPREF: the left operand of a zip over by_ref() iterators is not consumed again (zip drops one of its items). Comparing raw word slices "
            "of different lengths is lexicographic, not numeric (violation); equal explicit lengths or iterator adaptors are undecided.",
     "C10": "ZIPREF on eq/hash (an equality that skips a word makes values with different hashes equal); the hasher may be fed from a closure or "
-           "from a helper introduced after the review (tainted through them). " + _DBG,
+           "from a helper introduced after the review (tainted through them). ENDANCHOR: a reversed walk over a vector's whole allocation limited "
+           "to a number of used words starts at the wrong word when there is spare capacity. SLOT: each word type's leading_zeros is the std one. " + _DBG,
     "C11": "NOPANIC: in vector -> integer conversions every bounds check is discharged by a loop bound over the used words or a guard on the storage "
            "length, and there is no explicit panic. " + _DBG,
     "C12": "POS: a word index taken from enumerate() behind a filtering adaptor counts surviving items, not positions. " + _DBG,
@@ -1382,7 +1391,8 @@ _ADDENDA = {
     "C19": "GUARD-PRED: the error predicates on the Bvf side are exact, not merely present. DEBUG-IDX: the index assertion's passing edge dominates "
            "every return. " + _DBG,
     "C20": "MASK/USED on the operator kernels and Clone, NARROW, CARRY for integer right-hand sides: the forms can only agree if every kernel behind "
-           "them is canonical on its own (twin comparisons are reported as leads only). " + _DBG,
+           "them is canonical on its own (twin comparisons are reported as leads only); COVER/POS: sibling kernels of one operator cover every word "
+           "position and address words by position, not by rank behind a filter. " + _DBG,
 }
 for _pid, _txt in _ADDENDA.items():
     PROPS[_pid]["explanation"] = PROPS[_pid]["explanation"].rstrip() + " " + _txt
